@@ -105,6 +105,18 @@ C16Bad == {i \in 1..N : Rec[i].ev = "result" /\
                                   /\ Rec[j].depth = Rec[i].depth /\ Res(Rec[j]) # Res(Rec[i]))}
 
 -----------------------------------------------------------------------------
+(* ORD: the assumption Search.tla makes about the move-ordering iterator: it yields every move *)
+(* of the list it was given exactly once (then "any order" in the model covers it).            *)
+SeqSet(q) == {q[i] : i \in 1..Len(q)}
+OrdFails(r) ==
+  (IF Len(r.out) # Len(r.moves) THEN {"length"} ELSE {})
+  \cup (IF SeqSet(r.out) # SeqSet(r.moves) THEN {"not-the-same-moves"} ELSE {})
+  \cup (IF Cardinality(SeqSet(r.out)) # Cardinality(SeqSet(r.moves)) THEN {"repeats"} ELSE {})
+\* for information only (heuristics are free): cached move first, captures before quiet moves
+OrdTTFirst(r) == r.tt \in SeqSet(r.moves) => r.out[1] = r.tt
+OrdCapsFirst(r) == \A i, j \in 1..Len(r.out) : (i < j /\ r.out[i] # r.tt /\ r.caps[i] = 0) => r.caps[j] = 0
+
+-----------------------------------------------------------------------------
 (* Stateless modes are evaluated in the initial state and reported by PrintT. *)
 VARIABLES l, cur, aborted, widx, ref, refOf, judged, rejected
 svars == <<l, cur, aborted, widx, ref, refOf, judged, rejected>>
@@ -122,6 +134,11 @@ Stateless ==
     [] Mode = "C16" ->
          IF C16Bad = {} THEN PrintT(<<"ACCEPT", N, Cardinality({<<Rec[i].case, Rec[i].depth>> : i \in {j \in 1..N : Rec[j].ev = "result"}})>>)
          ELSE PrintT(<<"REJECT", FirstOf(C16Bad), "result", {"same-input-different-result"}, 0, 0>>)
+    [] Mode = "ORD" ->
+         LET bad == {i \in 1..N : OrdFails(Rec[i]) # {}} IN
+         IF bad = {} THEN PrintT(<<"ACCEPT", N, Cardinality({i \in 1..N : OrdTTFirst(Rec[i])}),
+                                   Cardinality({i \in 1..N : OrdCapsFirst(Rec[i])})>>)
+         ELSE PrintT(<<"REJECT", FirstOf(bad), "order", OrdFails(Rec[FirstOf(bad)]), 0, 0>>)
     [] OTHER -> TRUE
 
 -----------------------------------------------------------------------------
